@@ -204,7 +204,8 @@ def u_emit2(c):
     events = []
     prb = Obj(it.get_global(P, "Probe"), c.new_id())
     raw = bool(c.choose(2, "raw"))
-    prb.fields.update(_raw=raw, _observers=[_observer(it, "o1", events)], _root=None, _live=True)
+    live = bool(c.choose(2, "probe-is-active"))
+    prb.fields.update(_raw=raw, _observers=[_observer(it, "o1", events)], _root=None, _live=live)
     prb.fields["_root"] = prb
     begin = bool(c.choose(2, "begin"))
     v = c.val("v")
@@ -214,6 +215,11 @@ def u_emit2(c):
     el = SymObj("el", Val.ref(z3.IntVal(c.new_id())), attrs={"focus": begin})
     st, r = run(it, it.getattr(prb, "_emit2"), [data], dict(acc=acc, element=el))
     c.prove("emit2/returns-ABSENT", st == "ok" and r is it.models.absent(it))
+    if not live:
+        # what happens while the probe is not active (during the completion of its stream, in an activation that outlives it) is not
+        # part of the stream: the begin / end events of a wrapper probe are no exception
+        c.prove("emit2/nothing-is-pushed-while-the-probe-is-not-active", events == [], note=str([e[:2] for e in events]), only=["C17"])
+        return
     c.prove("emit2/pushed-once", len(events) == 1)
     if len(events) == 1:
         payload = events[0][2]
